@@ -569,6 +569,8 @@ class Interp:
             hook = getattr(U, 'attr_hooks', {}).get((sn, attr))
             if hook:
                 return hook(self, base)
+            if (sn, attr) in getattr(U, 'method_hooks', {}):
+                return FuncVal('method', attr, base)
             if sn in U.records and attr in U.records[sn]:
                 return z3.simplify(U.rget(sn, attr, base))
             if sn in U.fields and attr in U.fields[sn]:
@@ -914,6 +916,12 @@ class Interp:
         if name == 'append' and info.kind in ('stack', 'snoc'):
             self.rebind_target(node, U.cons(sn, self.coerce(args[0], info.elem), obj))
             return None
+        if name in ('append', 'extend') and info.kind == 'fwd' and getattr(U, 'append_idiom', None):
+            other = args[0]
+            if name == 'append':
+                other = U.cons(sn, self.coerce(other, info.elem), U.nil(sn))
+            self.rebind_target(node, U.append_idiom(self, sn, obj, self.coerce(other, sn)))
+            return None
         if name == 'pop' and info.kind == 'stack' and not args:
             if not self.choose_bool(U.is_cons(sn, obj), '@nonempty'):
                 raise SymRaise('IndexError', 'pop from empty list')
@@ -972,8 +980,10 @@ class Interp:
                 self.env, self.old_env = saved_env, saved_old
                 self.oblige('call:%s/pre:%s' % (c.qualname, cl.name), g, 'precondition')
                 self.env, self.old_env = cenv, dict(vals)
-            # decreases for recursive calls
-            if c is self.fn_contract and c.decreases:
+            # decreases for recursive calls (direct, or mutual inside a declared recursion group)
+            same_group = (self.fn_contract is not None and getattr(c, 'rec_group', None) is not None
+                          and getattr(self.fn_contract, 'rec_group', None) == c.rec_group)
+            if (c is self.fn_contract or same_group) and c.decreases:
                 new = [self.ev_pure(d.node) for d in c.decreases]
                 self.env, self.old_env = saved_env, saved_old
                 self.oblige('call:%s/decreases' % c.qualname, self.lex_less(new, self.entry_measure), 'decreases')
@@ -990,7 +1000,7 @@ class Interp:
             if c.returns:
                 # a postcondition `result == <spec term>` defines the result: use the term itself (so that
                 # lemma triggers match syntactically) instead of a fresh constant constrained by an equation
-                for cl in c.ensures:
+                for cl in list(c.defines) + list(c.ensures):
                     n = cl.node
                     if (isinstance(n, ast.Compare) and len(n.ops) == 1 and isinstance(n.ops[0], ast.Eq)
                             and isinstance(n.left, ast.Name) and n.left.id == 'result' and not c.forall
@@ -1046,7 +1056,8 @@ class Interp:
                       for i, (n, s) in enumerate(c.forall.items())}
                 self.counter += len(qv)
                 self.env.update(qv)
-            facts = [self.to_bool(self.ev_pure(cl.node)) for cl in c.ensures if not (functional and cl is functional[0])]
+            facts = [self.to_bool(self.ev_pure(cl.node)) for cl in list(c.defines) + list(c.ensures)
+                     if not (functional and cl is functional[0])]
         finally:
             self.env, self.old_env = saved_env, saved_old
         for f in facts:
@@ -1134,12 +1145,52 @@ class Interp:
         """new < old lexicographically, every component bounded below by 0."""
         if len(new) != len(old):
             raise OutsideSubset('measure arity')
+        new = [z3.IntVal(x) if isinstance(x, int) else x for x in new]
+        old = [z3.IntVal(x) if isinstance(x, int) else x for x in old]
         conds = []
         eq_prefix = []
         for n, o in zip(new, old):
             conds.append(z3.And(*(eq_prefix + [n < o, o >= 0])) if eq_prefix else z3.And(n < o, o >= 0))
             eq_prefix.append(n == o)
         return z3.Or(*conds) if len(conds) > 1 else conds[0]
+
+    def inv_goal(self, spec, cl):
+        """an invariant clause as a proof goal: its universally quantified ghosts become fresh constants"""
+        if not spec.forall:
+            return self.to_bool(self.ev_pure(cl.node))
+        saved = dict(self.env)
+        for n, sn in spec.forall.items():
+            self.env[n] = self.fresh(sn, 'sk_' + n)
+        try:
+            return self.to_bool(self.ev_pure(cl.node))
+        finally:
+            self.env = saved
+
+    def inv_assume(self, spec, cl):
+        """an invariant clause as an assumption: quantified ghosts make it a local lemma (instantiated by triggers)"""
+        if not spec.forall:
+            self.assume(self.to_bool(self.ev_pure(cl.node)))
+            return
+        saved = dict(self.env)
+        qv = {}
+        for n, sn in spec.forall.items():
+            self.counter += 1
+            qv[n] = z3.Const('q_%s!%d' % (n, self.counter), self.U.sort(sn))
+            self.env[n] = qv[n]
+        try:
+            f = self.to_bool(self.ev_pure(cl.node))
+        finally:
+            self.env = saved
+        if isinstance(f, bool):
+            self.assume(f)
+            return
+        from .vcgen import subterms
+        ids = {t.get_id() for t in subterms([f]).values()}
+        used = [v for v in qv.values() if v.get_id() in ids]
+        if used:
+            self.local_lemmas.append((used, f, None))
+        else:
+            self.assume(f)
 
     def check_havoc_complete(self, head, targets, ordinal):
         for n, v0 in head.items():
@@ -1451,7 +1502,7 @@ class Interp:
         # 1. invariant on entry
         self.loop_ctx.append((ordinal, len(self.trace)))
         for cl in spec.inv:
-            self.oblige('entry/inv:' + cl.name, self.to_bool(self.ev_pure(cl.node)), 'invariant-entry')
+            self.oblige('entry/inv:' + cl.name, self.inv_goal(spec, cl), 'invariant-entry')
         # 2. havoc
         targets = self.assigned_names(s.body) | ({rest_name} if kind == 'for' else set())
         if kind == 'for':
@@ -1489,7 +1540,7 @@ class Interp:
             self.inputs['@loop%d' % ordinal]['__out__'] = self.out
         self.loop_ctx[-1] = (ordinal, len(self.trace))
         for cl in spec.inv:
-            self.assume(self.to_bool(self.ev_pure(cl.node)))
+            self.inv_assume(spec, cl)
         measure = [self.ev_pure(d.node) for d in spec.decreases]
         # 3. guard
         if kind == 'while':
@@ -1521,7 +1572,7 @@ class Interp:
         for src in spec.ghost_back:
             self.exec_ghost(src)
         for cl in spec.inv:
-            self.oblige('inv:' + cl.name, self.to_bool(self.ev_pure(cl.node)), 'invariant-preserved')
+            self.oblige('inv:' + cl.name, self.inv_goal(spec, cl), 'invariant-preserved')
         if spec.decreases:
             new = [self.ev_pure(d.node) for d in spec.decreases]
             self.oblige('decreases', self.lex_less(new, measure), 'decreases')
